@@ -194,6 +194,8 @@ Lemma finding_28_status : finding_status 28 wit_finding_28.
 Proof. apply finding_status_by_check. vm_compute. reflexivity. Qed.
 Lemma finding_29_status : finding_status 29 wit_finding_29.
 Proof. apply finding_status_by_check. vm_compute. reflexivity. Qed.
+Lemma finding_30_status : finding_status 30 wit_finding_30.
+Proof. apply finding_status_by_check. vm_compute. reflexivity. Qed.
 
 (* ---- non-vacuity: the documented channel IS reached, inside the guard, in both modes ----------------- *)
 Definition channel_reached (x : bool) : Prop :=
